@@ -57,7 +57,19 @@ def build_harness():
 
 
 def run_cases(cases, timeout_ms=5000, jobs=None):
-    """cases: list of dicts with integer 'id'.  Returns {id: [step results]}"""
+    """cases: list of dicts with integer 'id'.  Returns {id: [step results]}
+
+    The watchdog is wall-clock, so on a loaded machine a cheap case can be cut off.  A case that timed
+    out is therefore run again, few at a time, with six times the budget; only a timeout that
+    survives that is reported as one (a real hang still is)."""
+    out = _run_cases(cases, timeout_ms, jobs)
+    slow = [c for c in cases if any(s.get("o") == "timeout" for s in out[c["id"]])]
+    if slow and len(slow) <= 64:
+        out.update(_run_cases(slow, timeout_ms * 6, 4))
+    return out
+
+
+def _run_cases(cases, timeout_ms, jobs):
     jobs = jobs or JOBS
     inp = "\n".join(json.dumps(c) for c in cases) + "\n"
     p = subprocess.run([NVH, "run", "-j", str(jobs), "-t", str(timeout_ms)], input=inp,
